@@ -21,7 +21,7 @@ ASSUMPTIONS = [
     "constructs and places outside the enumerated lists are not explored",
 ]
 VM_SLACK = 1000 + 16
-AUX_SLACK = 1000
+AUX_SLACK = 2000      # auxiliary interpreters are short-lived and counted apart; two poll intervals bound them
 RE_SLACK = 100 + 116
 ABORT_AFTER = 20000
 
